@@ -873,7 +873,8 @@ def single_def(fn, d):
     cache = fn.__dict__.setdefault("_single_def", {})
     if d not in cache:
         defs = fn.var_defs(d)
-        cache[d] = defs[0][1] if len(defs) == 1 and defs[0][2] == "decl" and defs[0][1] is not None else None
+        ok = len(defs) == 1 and defs[0][1] is not None and (defs[0][2] == "decl" or (defs[0][2] == "=" and fn.nodes[defs[0][0]].get("inl_ret")))
+        cache[d] = defs[0][1] if ok else None      # (the single `__ret = e` of an inlined one-return helper counts as an initialiser)
     return cache[d]
 
 
